@@ -162,7 +162,7 @@ func newSortTable() *sortTable {
 }
 
 func isTime(t types.Type) bool {
-	if n, ok := t.(*types.Named); ok {
+	if n, ok := types.Unalias(t).(*types.Named); ok {
 		o := n.Obj()
 		return o.Pkg() != nil && o.Pkg().Path() == "time" && o.Name() == "Time"
 	}
@@ -173,6 +173,7 @@ var byteRe = regexp.MustCompile(`\bbyte\b`)
 var runeRe = regexp.MustCompile(`\brune\b`)
 
 func typeKey(t types.Type) string {
+	t = types.Unalias(t)
 	s := types.TypeString(t, func(p *types.Package) string { return p.Path() })
 	s = runeRe.ReplaceAllString(byteRe.ReplaceAllString(s, "uint8"), "int32")
 	r := strings.NewReplacer("github.com/alpacahq/marketstore/v4/", "", " ", "_", "*", "P", "[", "L", "]", "R", "/", ".", "{", "_", "}", "_", ";", "_", "(", "_", ")", "_", ",", "_", "\"", "_", "|", "_")
